@@ -110,3 +110,15 @@ prop("C19", "exploration",
       dict(name="c19_rng_asan", sources=["c19_rng.cpp"], flavour="asan", flags=["-DC19_SUBSAMPLE"])],
      assumptions=TRUST + ["'across platforms' is observed as independence from process, thread, ASLR layout, heap history and libc RNG/clock state on this machine only"],
      exhaustive=True, extras=[dict(name="c19_purity_monitor", fn=c19_purity)])
+
+
+# ------------------------------------------------------------------------------------------ C08
+prop("C08", "exploration",
+     "UpperHessenbergQR / TridiagQR / DoubleShiftQR called directly on generated matrices: sizes 2..40 (60% of them <= 8), nine entry patterns "
+     "(random, small integers with every zero/non-zero subdiagonal mask for n <= 8, graded over 16 decades, deflated blocks, negligible subdiagonals, "
+     "scaled to 1e+-150 (type-appropriate), zero diagonal, diagonal/zero) x six shift kinds (random, zero, huge, exact eigenvalue(s) of H, a diagonal entry, tiny), "
+     "float/double/long double; a driver case = 6 matrices; non-trivial = matrix not diagonal; distinct by (class, n, pattern, shift kind, mask, first entry, shift)",
+     [dict(name="c08_qr_d", sources=["c08_qr.cpp"], flavour="asan", flags=["-DC08_T=double"]),
+      dict(name="c08_qr_f", sources=["c08_qr.cpp"], flavour="asan", flags=["-DC08_T=float"]),
+      dict(name="c08_qr_ld", sources=["c08_qr.cpp"], flavour="asan", flags=["-DC08_T=long double"])],
+     assumptions=TRUST + ["identities are judged in long double with allowance 64*n*eps*(||H||_F+|s|sqrt(n)); for long double inputs the oracle's own rounding is inside that margin"])
